@@ -322,6 +322,7 @@ func checkC20(p *Prog, r *Report) {
 	if nAnon == 0 {
 		r.Bad("C20/EXEC-ONLY-DAEMON", "anonymous anonssh.Serve call site", "-", "no anonymous-listener call site found")
 	}
+	checkAnonNoAmbientWrites(p, r)
 	r.Trust("golang.org/x/crypto/ssh enforces the configured authentication callbacks and channel/request framing")
 	r.Assume("the rule is context-insensitive: a repair that keeps calling the general CLI entry and adds a run-time mode check would still be reported")
 	r.Uncovered("key parsing quirks in loadAuthorizedKeys (start-up time, not peer-triggered); what authorised users may do after authentication")
